@@ -394,7 +394,7 @@ func c17effect(p *core.Prog, g, perCall, eff, fold *ssa.Function, doNew map[stri
 		okErr := false
 		core.Instrs(eff, func(ins ssa.Instruction) {
 			if st, isS := ins.(*ssa.Store); isS && core.FieldKey(st.Addr) == "ResponseWithError.Err" {
-				if ex, isE := st.Val.(*ssa.Extract); isE && ex.Tuple == ssa.Value(ser) && serErrEdge(st.Block()) {
+				if ex, isE := core.NonNilSource(st.Val).(*ssa.Extract); isE && ex.Tuple == ssa.Value(ser) && serErrEdge(st.Block()) {
 					okErr = true
 				}
 			}
@@ -402,7 +402,7 @@ func c17effect(p *core.Prog, g, perCall, eff, fold *ssa.Function, doNew map[stri
 			if call, isC := ins.(*ssa.Call); isC && serErrEdge(call.Block()) {
 				if h := core.Callee(&call.Call); h != nil && p.InRepo(h) {
 					for i, a := range call.Call.Args {
-						if ex, isE := a.(*ssa.Extract); isE && ex.Tuple == ssa.Value(ser) && i < len(h.Params) {
+						if ex, isE := core.NonNilSource(a).(*ssa.Extract); isE && ex.Tuple == ssa.Value(ser) && i < len(h.Params) {
 							core.Instrs(h, func(i2 ssa.Instruction) {
 								if st, isS := i2.(*ssa.Store); isS && core.FieldKey(st.Addr) == "ResponseWithError.Err" && st.Val == ssa.Value(h.Params[i]) {
 									okErr = true
